@@ -144,6 +144,12 @@ class FakeDispatcher(YowConnectionDispatcher):
         if getattr(self, "short_lived", False):
             self.writes.append(bytes(data))
             return
+        if getattr(self.rig, "stall_write_in", None) is not None:
+            # the peer has stopped reading: this write blocks (a blocking socket's sendall) for a long time before it is taken
+            self.rig.stall_write_in -= 1
+            if self.rig.stall_write_in < 0:
+                self.rig.stall_write_in = None
+                S.SCHED.sleep(self.rig.stall_seconds)
         if getattr(self.rig, "hold_writes", False):
             self.out_buffer += data
             return
@@ -222,6 +228,8 @@ class Rig(object):
         self.close_on_recv_error = False
         self.redundant_down = False
         self.hold_writes = False
+        self.stall_write_in = None    # n: the n-th write from now blocks for stall_seconds of virtual time
+        self.stall_seconds = 20.0
         self.eager_frames = None      # encoded stanzas the server sends the moment it has read the client's last handshake message
         self.eager_problems = []
         self.eager_sent = False
